@@ -17,6 +17,7 @@ THEOREMS = [
     "PV.C04.C04_gaussInv_complete",
     "PV.C04.C04_gaussInv_none_iff",
     "PV.C04.C04_gaussInv_contract",
+    "PV.C04.C04_identical_refs_checked",
     # C04 o C06 (o C13): multi-setup FDD end to end (Props/C04C06.lean)
     "PV.C04C06.sdEst_rank_one_entry",
     "PV.C04C06.sdEst_superposition",
